@@ -131,3 +131,28 @@ def r_C28cd(root):
             if not guarded:
                 out.append(Finding("C28", "C28.d", M, "ReferenceResolver.resolve_one_step", " ".join(ast.unparse(a).split())[:90], "the location of every textX error coming out of a scope provider is overwritten with the location of the reference: an error raised while the provider loads another model (syntax error in that file) is reported in the referencing file", witness="a scope provider that loads a broken file lazily inside __call__"))
     return inst, out
+
+def r_C28e(root):
+    """C28.e  every scope-provider call of the resolver (grammar-attached provider, registered provider, default provider —
+       recognised by the shape of the callee, sa/rules/gen.py) lies inside a try whose TextXError handler fills line, col
+       and filename from the reference and re-raises: an error raised without location by *any* provider is reported at
+       the reference."""
+    from sa.rules import gen
+    out = []; inst = 0
+    fn = find(load(root, M), "ReferenceResolver.resolve_one_step")
+    pcs = [c for c in calls(fn, own=True) if gen._is_provider_call(c)]
+    if not pcs: raise AnalysisError("resolve_one_step: no scope provider call found")
+    for c in pcs:
+        inst += 1; ok = False
+        for a in ancestors(c):
+            if a is fn: break
+            if isinstance(a, ast.Try) and any(c is x for b in a.body for x in ast.walk(b)):
+                for h in a.handlers:
+                    ht = ast.unparse(h.type) if h.type is not None else "BaseException"
+                    if not any(k in ht for k in ("TextXError", "Exception", "BaseException")): continue
+                    stores = {tg.attr for n in ast.walk(h) if isinstance(n, ast.Assign) for tg0 in n.targets for tg in ([tg0] if isinstance(tg0, ast.Attribute) else (tg0.elts if isinstance(tg0, (ast.Tuple, ast.List)) else [])) if isinstance(tg, ast.Attribute)}
+                    if {"line", "col", "filename"} <= stores and any(isinstance(n, ast.Raise) for n in ast.walk(h)): ok = True
+                if ok: break
+        ob("C28", "C28.e", M, "ReferenceResolver.resolve_one_step", "provider call %s under the location-filling handler" % " ".join(ast.unparse(c).split())[:60], ok)
+        if not ok: out.append(Finding("C28", "C28.e", M, "ReferenceResolver.resolve_one_step", " ".join(ast.unparse(c).split())[:90], "this provider call is not covered by the handler that gives a location-less TextXError the position and file of the reference: its errors ('name is not unique', 'Unknown object' raised by a provider) reach the user with line, col and filename None", witness="a name defined twice and a reference to it on an attribute without a registered provider"))
+    return inst, out
